@@ -231,8 +231,63 @@ def _param_roots(f, locals_):
     return out
 
 
+def r19d(ctx, P):
+    rid = "R19.d"
+    from sa.rules.C25 import natural_loops
+    ctx.rule(rid, "PER-SEGMENT STATE (the rescore score is BM25 over the hit's own segment): document ids are local to a segment, so a "
+                  "cache of per-document tables keyed by field name is only valid for one segment. Wherever field_lengths_for(cache, "
+                  "field, seg) is called with a `seg` that is bound by a loop over segments, the cache it fills is created inside that "
+                  "same loop iteration")
+    n = 0
+    for q, f in sorted(P.fns.items()):
+        if f.crate != "searchlite_core" or is_test_or_bench(f):
+            continue
+        calls = [(b, t) for b, t in f.calls() if callee_of(t) == "searchlite_core::api::reader::field_lengths_for"]
+        if not calls:
+            continue
+        loops = natural_loops(f)
+        defs = f.defs()
+        sl = Slice(f)
+
+        def root_of(o):
+            l = op_local(o)
+            seen = set()
+            while l is not None and l not in seen:
+                seen.add(l)
+                if f.locals[l].get("name"):
+                    return l
+                nxt = None
+                for d in defs.get(l, []):
+                    if d["k"] == "assign" and d["rv"]["k"] == "ref":
+                        nxt = d["rv"]["place"]["l"]
+                    elif d["k"] == "assign" and d["rv"]["k"] in ("use", "cast"):
+                        nxt = op_local(d["rv"]["a"])
+                l = nxt
+            return l
+        for b, t in calls:
+            cache, seg = root_of(t["args"][0]), root_of(t["args"][2])
+            if cache is None or seg is None:
+                continue
+            seg_def_blocks = {d["b"] for d in defs.get(seg, [])}
+            seg_loops = [body for h, body in loops if b in body and (seg_def_blocks & body)]
+            if not seg_loops:
+                continue          # `seg` is not bound per iteration here (a parameter): one segment per call
+            n += 1
+            ctx.saw(f)
+            body = max(seg_loops, key=len)
+            cache_defs_in = [d for d in defs.get(cache, []) if d["b"] in body and not d.get("partial")]
+            ok = bool(cache_defs_in)
+            ctx.ob(rid, "%s:%s:cache-per-segment" % (rid, f.short.rsplit("::", 1)[-1]), ok,
+                   "`%s` is re-created for every segment" % f.locals[cache].get("name") if ok else
+                   "`%s` is created outside the loop that binds `%s` and filled by field_lengths_for at %s: the length table of the first "
+                   "segment is reused for the others, indexed by their local document ids" % (
+                       f.locals[cache].get("name"), f.locals[seg].get("name"), Site(f, b).loc()), Site(f, b).loc())
+    ctx.floor(rid, n, 1, "field_lengths_for calls inside a loop over segments (rescore_hits)")
+
+
 def run(ctx, progs):
     P = progs.get("default")
+    r19d(ctx, P)
     r19a(ctx, P)
     r19b(ctx, P)
     r19c(ctx, P)
